@@ -21,9 +21,10 @@ Definition create_range_dim (start stop : Q) (step : option Q) (size : option Z)
          end) with
   | Err e => Err e
   | Ok st =>
+      if qeqb st 0 then Err EOther (* np.arange with a zero step: ZeroDivisionError *) else
       let coords := arange start stop st in
       match last_opt coords with
-      | None => Err EOther                       (* coords[-1] on an empty array: IndexError *)
+      | None => Ok ([], st)                      (* empty range: no coordinates *)
       | Some l =>
           if qleb (stop - st / 2) l then Ok (removelast coords, st) else Ok (coords, st)
       end
